@@ -219,7 +219,7 @@ class ArgGen:
             if w.endswith("\\") or w.startswith(("\\", "~")):
                 return None
             # a non-ASCII numeric character that starts a word piece (after a non-alphanumeric neighbour) is finding F3
-            f3 = any(ch in NUMLIKE and (i == 0 or not w[i - 1].isalnum()) for i, ch in enumerate(w))
+            f3 = any(ch in NUMLIKE and (i == 0 or not w[i - 1].isalpha()) for i, ch in enumerate(w))
             if f3 and "C04-F3" in _state.get("open", ()) and self.k(3) != 0:
                 if self.stats is not None:
                     self.stats.excluded_known["C04-F3"] += 1
@@ -536,6 +536,26 @@ def _f1_match(got, exp):
     return False
 
 
+def _f1_invalid_escape(exp):
+    """F1 again: the backslash left over after the wrongly removed backslash-newline starts an escape sequence that is not
+    one (backslash, newline, `xb`, newline becomes a truncated hex escape): the literal no longer compiles and the line does not
+    run at all."""
+    if exp.count("\\\n") != 1:
+        return False
+    rest = exp[exp.index("\\\n") + 2:]
+    rest = rest.replace("\\", "\\\\").replace('"', '\\"')
+    try:
+        ast.literal_eval('"""\\' + rest + '"""')
+    except (SyntaxError, ValueError):
+        return True
+    return False
+
+
+def _f3_shape(case):
+    return any(m["form"] == "form:symbol-word" and any(ch in NUMLIKE and (i == 0 or not m["src"][i - 1].isalpha())
+                                                       for i, ch in enumerate(m["src"])) for m in case.get("args") or [])
+
+
 def classify(case, got, want):
     """Narrow predicates of recorded findings, evaluated on the failing case.
 
@@ -545,6 +565,9 @@ def classify(case, got, want):
             differing arguments come from glued forms whose injected value contains ~ $ * ? [
     """
     meta = case.get("args")
+    if meta and not got and any(m["form"] == "form:triple" and len(m["exp"]) == 1 and "\\\n" in m["exp"][0]
+                                and _f1_invalid_escape(m["exp"][0]) for m in meta):
+        return "C04-F1"
     if not meta or len(got) != len(want):
         return None
     got, want = sorted(got), sorted(want)
@@ -626,6 +649,8 @@ def check_case(case, child_too=True):
         fid = "C04-F4" if (case.get("f4_shape") and got[0] in ("SyntaxError", "CalledProcessError", "XonshError")) else None
         if fid is None and got[0] == "SyntaxError" and case.get("labels") == ["form:macro"] and unterminated_triple(case["src"][4:]):
             fid = "C04-F5"
+        if fid is None and got[0] == "SyntaxError" and _f3_shape(case):
+            fid = "C04-F3"      # the number-like character ends a NUMBER token in the middle of the word (`0\u00b2cc`)
         return Failure("error:" + got[0], case, "line did not run: %s: %s" % got, finding=fid, bucket=fid or ("error:" + got[0]))
     if sorted(got) != sorted(want):
         fid = classify(case, got, want)
